@@ -74,7 +74,7 @@ FLOWS += [
     Flow("k_flow_compute_kdf_context", "_gkdi.py", "compute_kdf_context", props=("C02", "C03")),
     Flow("k_flow_compute_l1_key", "_gkdi.py", "compute_l1_key", props=("C02", "C03", "C05")),
     Flow("k_flow_compute_l2_key", "_gkdi.py", "compute_l2_key", props=("C02", "C03", "C05")),
-    Flow("k_flow_compute_kek", "_gkdi.py", "compute_kek", props=("C03", "C05")),
+    Flow("k_flow_compute_kek", "_gkdi.py", "compute_kek", props=("C03", "C04", "C05")),
     Flow("k_flow_compute_kek_from_public_key", "_gkdi.py", "compute_kek_from_public_key", props=("C03", "C05")),
     Flow("k_flow_compute_public_key", "_gkdi.py", "compute_public_key", props=("C03",)),
     Flow("k_flow_gke_is_public_key", "_gkdi.py", "GroupKeyEnvelope.is_public_key", props=("C03",)),
